@@ -152,7 +152,9 @@ func c07Delete(c *Ctx, m *Module) {
 	}
 }
 
-func c07OnlyExpired(c *Ctx, m *Module) {
+func c07OnlyExpired(c *Ctx, m *Module) { c07OnlyExpiredAs(c, m, "C07.only-expired", "C07.week-key") }
+
+func c07OnlyExpiredAs(c *Ctx, m *Module, ruleExp, ruleKey string) {
 	r := c.R
 	rep := m.Func("internal/upload", "uploader.reports")
 	fw := m.Func("internal/upload", "uploader.findWork")
@@ -186,24 +188,24 @@ func c07OnlyExpired(c *Ctx, m *Module) {
 		got := fb.reach(mu.Block())
 		want := bAnd{[]BExpr{bBool{"isnil(spanErr)"}, mkOrd("end", "<", "startTime")}}
 		ok2, why := projectedEquivalent(got, want, func(v string) bool { return strings.Contains(v, "end") || strings.Contains(v, "spanErr") })
-		r.Check("C07.only-expired", "reports/file folded iff its recorded end is before the start time", m.Pos(mu.Pos()), ok2 && span != nil,
+		r.Check(ruleExp, "reports/file folded iff its recorded end is before the start time", m.Pos(mu.Pos()), ok2 && span != nil,
 			"a file joins a week's list iff counterDateSpan succeeded ∧ end < startTime (strict): "+why)
 		// element comes from todo.countfiles
-		r.Check("C07.only-expired", "reports/folded files come from findWork's countfiles", m.Pos(mu.Pos()), strings.Contains(describe(f), ".countfiles["), "got "+describe(f))
+		r.Check(ruleExp, "reports/folded files come from findWork's countfiles", m.Pos(mu.Pos()), strings.Contains(describe(f), ".countfiles["), "got "+describe(f))
 		// the week key is end.Format(dateFormat)
 		kd := describe(mu.Key)
-		r.Check("C07.week-key", "reports/grouping key is the recorded end date", m.Pos(mu.Pos()),
+		r.Check(ruleKey, "reports/grouping key is the recorded end date", m.Pos(mu.Pos()),
 			strings.HasPrefix(kd, "(time.Time).Format((*internal/upload.uploader).counterDateSpan(") && strings.Contains(kd, "#1, *global:internal/upload.dateFormat)"), "got "+kd)
 	}
-	r.Check("C07.only-expired", "reports/has the per-week append", m.Pos(rep.Pos()), n == 1, fmt.Sprintf("%d append sites", n))
+	r.Check(ruleExp, "reports/has the per-week append", m.Pos(rep.Pos()), n == 1, fmt.Sprintf("%d append sites", n))
 	// createReport and deleteFiles receive exactly those lists
 	for _, cs := range callsIn(rep, "(*internal/upload.uploader).createReport") {
 		d := describe(cs.Common().Args[3])
-		r.Check("C07.only-expired", "reports/createReport gets the week's list", m.Pos(cs.Pos()), strings.HasPrefix(d, "rangeval(makemap:"), "got "+d)
+		r.Check(ruleExp, "reports/createReport gets the week's list", m.Pos(cs.Pos()), strings.HasPrefix(d, "rangeval(makemap:"), "got "+d)
 	}
 	for _, cs := range callsIn(rep, "(*internal/upload.uploader).deleteFiles") {
 		d := describe(cs.Common().Args[1])
-		r.Check("C07.only-expired", "reports/deleteFiles gets the week's list", m.Pos(cs.Pos()), strings.HasPrefix(d, "rangeval(makemap:"), "got "+d)
+		r.Check(ruleExp, "reports/deleteFiles gets the week's list", m.Pos(cs.Pos()), strings.HasPrefix(d, "rangeval(makemap:"), "got "+d)
 	}
 	// findWork: countfiles append under ¬err ∧ ¬expiry.After(startTime)
 	for _, in := range instrsOf(fw) {
@@ -234,10 +236,10 @@ func c07OnlyExpired(c *Ctx, m *Module) {
 		got := fb.reach(st.Block())
 		want := bAnd{[]BExpr{bBool{"isnil(spanErr)"}, mkOrd("end", "<=", "startTime")}}
 		ok2, why := projectedEquivalent(got, want, func(v string) bool { return strings.Contains(v, "end") || strings.Contains(v, "spanErr") })
-		r.Check("C07.only-expired", "findWork/count file collected iff readable and not still active", m.Pos(st.Pos()), ok2,
+		r.Check(ruleExp, "findWork/count file collected iff readable and not still active", m.Pos(st.Pos()), ok2,
 			"a count file is collected iff its span is readable ∧ ¬(end > startTime): "+why)
 		okName := len(elems) == 1 && strings.Contains(describe(elems[0]), "LocalDir(")
-		r.Check("C07.only-expired", "findWork/collected name is the listed file", m.Pos(st.Pos()), okName && hasFact(factsAt(st), callResultIs("strings.HasSuffix", true, func(a []ssa.Value, _ *ssa.Call) bool {
+		r.Check(ruleExp, "findWork/collected name is the listed file", m.Pos(st.Pos()), okName && hasFact(factsAt(st), callResultIs("strings.HasSuffix", true, func(a []ssa.Value, _ *ssa.Call) bool {
 			k, ok := constOf(a[1])
 			return ok && k == "."+m.ConstVal("internal/counter", "FileVersion")+".count"
 		})), "count files are selected by the suffix .<FileVersion>.count")
